@@ -40,14 +40,14 @@ def corpus():
 def run(ctx):
     n = 64 if ctx.quick else 1000
     seeds = [ctx.seed * 100000 + i for i in range(n)]
-    ctx.rule = ('corpus histories first, then %d seeded histories (random walk and life-cycle families) in queue '
+    ctx.rule = ('corpus histories first, then %d seeded histories (random walk, life-cycle, branch-job, conflict, queue-matrix and manual-commit families) in queue '
                 'mode and skip_queue_when_not_needed mode, octopus and no_octopus, build reports drawn from the five '
                 'statuses on current and superseded tips; evaluation = one Bert-E job; non-trivial = distinct '
                 '(mode, strategy, moved destinations, status) among jobs that moved a destination' % n)
     for h in corpus():
         sysrun.run(ctx, [0], 0, MONITORS, replay_history=h)
         ctx.count('corpus_histories')
-    sysrun.run(ctx, seeds, 16, MONITORS, mode=['queue', 'queue', 'skip', 'skip', 'skip', 'queue', 'queue', 'skip'])
+    sysrun.run(ctx, seeds, 16, MONITORS, mode=['queue', 'queue', 'skip', 'skip', 'skip', 'queue', 'queue', 'skip', 'skip'])   # 9: every family (seed % 8) meets both modes
 
 
 def replay(ctx, data):
